@@ -358,6 +358,9 @@ impl Check for C14 {
     fn level(&self) -> &'static str {
         "fault_enumeration"
     }
+    fn announce(&self) -> bool {
+        true
+    }
     fn n_cases(&self, tier: Tier) -> u64 {
         let k = kinds::C14_KINDS.len() as u64;
         match tier {
@@ -546,6 +549,20 @@ impl Check for C14 {
         let slow_cram = matches!(&made.model, Model::Cram { opts, model, .. } if matches!(opts.encoder, 3 | 4 | 9) || model.records.len() > 40);
         let exhaustive = matches!(p.faults, Faults::Enumerate { .. }) && c0.calls <= 400 && reference.len() <= 60_000 && !slow_cram;
         for wp in &plans {
+            // announced: a writer run that never returns is attributed to its sink plan, and the
+            // watchdog measures one run, not the whole case
+            if !ctx.begin_sub(|| {
+                serde_json::to_value(Plan {
+                    kind: p.kind.clone(),
+                    file: p.file.clone(),
+                    faults: Faults::List(vec![wp.clone()]),
+                    mt: None,
+                    mt_calls: Vec::new(),
+                })
+                .unwrap()
+            }) {
+                continue;
+            }
             if let Some(v) = self.run_one(&made, &reference, wp, ctx) {
                 report(v, Faults::List(vec![wp.clone()]), &mut findings);
             }
